@@ -1385,8 +1385,10 @@ ol, ul { padding-left: 2em; }
             We use &#160; so we can send the output through an XML parser if we desire to
         """
         c = attrs.get( (TEXTNS,'c'),"1")
+        self.writedata()
         for x in range(int(c)):
             self.writeout('&#160;')
+        self.purgedata()
 
     def s_text_span(self, tag, attrs):
         """ The <text:span> element matches the <span> element in HTML. It is
